@@ -340,6 +340,17 @@ def mpu_oracle(obs, x):
         completes = [c for c in ucalls if c['op'] == 'CompleteMultipartUpload']
         if len(completes) > 1:
             out.append(V(f'{x.label}: upload {uid} received {len(completes)} CompleteMultipartUpload calls', **mech, sym='double-complete'))
+        # a CompleteMultipartUpload whose successful response reached the library finishes the upload the first way: the future must
+        # succeed and no abort may follow (the upload would be both completed and aborted, and a failure reported for an object that
+        # exists); a complete applied by the service whose response was lost is a failed request, not this case
+        delivered = [c for c in completes
+                     if [e for e in obs.events if e['kind'] == 'api.ret' and e.get('call_id') == c['call_id'] and e.get('error') is None]]
+        if delivered and u['state'] == 'completed' or delivered and u['completes']:
+            if x.outcome == 'raised' or aborts:
+                out.append(V(f'{x.label}: CompleteMultipartUpload for {uid} returned successfully, yet the future '
+                             f'{"failed with " + type(x.exc).__name__ if x.outcome == "raised" else "succeeded"} and '
+                             f'{len(aborts)} AbortMultipartUpload request(s) were sent for the completed upload', **mech, sym='completed-and-aborted',
+                             cancelled=isinstance(x.exc, CancelledError) if x.outcome == 'raised' else False))
         if x.outcome == 'success':
             if u['completes'] != 1 or u['state'] != 'completed':
                 out.append(V(f'{x.label}: future succeeded but upload {uid} is {u["state"]} (completes={u["completes"]})',
@@ -554,7 +565,9 @@ def expected_cancel_error(spec, how):
     if how == 'shutdown_cancel':
         return CancelledError, msg
     if how == 'with_exc':
-        return FatalError, (msg if msg else repr(ValueError(msg)))
+        from .scenario import with_exc_class
+
+        return FatalError, (msg if msg else repr(with_exc_class(spec)(msg)))
     if how in ('with_kbi', 'kbi_shutdown', 'kbi_exit'):
         return CancelledError, 'KeyboardInterrupt()'
     raise ValueError(how)
